@@ -646,6 +646,17 @@ where
                     opening.push(gen_dispatch_with(&mut next_id, k, "-", 0));
                 }
             }
+            if cfg.n == 0 && profile < 7 && rng.chance(1, 2) {
+                // an empty pool: the jobs wait in the factory queue (whatever the router), then the pool gets
+                // its first workers and the backlog is flushed through the router
+                for _ in 0..rng.range(2, 9) {
+                    let k = rng.below(nkeys.max(4));
+                    opening.push(gen_dispatch_with(&mut next_id, k, "-", 0));
+                }
+                size = rng.range(2, 4) as usize;
+                opening.push(format!("resize {size}"));
+                st.lock().unwrap().bump("opening_backlog_then_first_workers");
+            }
             let first_disc = cfg.disc.clone();
             for op in opening {
                 // a deep backlog needs room: lift the limit first
